@@ -743,4 +743,30 @@ theorem remove_index_keeps_positions (h : Heap) (to : Id) (i : Nat) (w : WP h)
     · unfold delAt; rw [hg]; simp only [hi, if_false]; exact w
 
 
+/-- Remove through a whole path (`removePathH`: the walk of cfgPath.Remove, then fields.del / fields.delAt): every stored
+position stays right.  `htree`: the nodes of the list an element is removed from are listed once (see
+`remove_index_keeps_positions`). -/
+theorem remove_path_keeps_positions (h h' : Heap) (root : Id) (segs : List Seg) (w : WP h)
+    (htree : ∀ to p f d a, getSub h to = some (p, f, d, a) → (∀ kc ∈ d, kc.2 ∉ a) ∧ to ∉ a)
+    (hr : removePathH h root segs = some h') : WP h' := by
+  unfold removePathH at hr
+  split at hr
+  · cases hr
+  · rename_i last revInit _
+    split at hr
+    · cases hr
+    · simp only [Option.some.injEq] at hr; subst hr; exact w
+    · rename_i cont _
+      split at hr
+      · simp only [Option.some.injEq] at hr; subst hr; exact w
+      · cases last with
+        | idx i =>
+          simp only [Option.some.injEq] at hr
+          subst hr
+          exact remove_index_keeps_positions h cont i w (fun p f d a hg => htree cont p f d a hg)
+        | name k =>
+          simp only [Option.some.injEq] at hr
+          subst hr
+          exact remove_name_keeps_positions h cont k w
+
 end Ucfg.C15
